@@ -196,6 +196,7 @@ static void i_case(uint64_t idx, void *ctx)
 int main(int argc, char **argv)
 {
     mc_init("C09", argc, argv);
+    libast_debug_level = (unsigned) mc_dlevel();        /* --dlevel=N: the whole run at runtime debug level N (default 0) */
     N = (int) mc_arg_int("N", mc_thorough() ? 5 : 3);
     mc_info("alphabet", "files of <= %d lines over 19 line kinds {# c, blank, begin A|B|a|zz(unknown), end, end A, t1, '  t2 two  ', 'v $V', %%include plain|unbalanced|nested|missing|without magic line|file that includes a missing file, endx, beginx}; "
             "contexts A, B registered with recording handlers, null context built in; depth sweep 1..255 balanced and unbalanced; include-chain sweep 1..30", N);
